@@ -362,7 +362,11 @@ func (p *ProjectRunner) getDoneOrRunningProcess(name string) *Process {
 
 func (p *ProjectRunner) removeRunningProcess(process *Process) {
 	p.runProcMutex.Lock()
-	delete(p.runningProcesses, process.getName())
+	// only remove the entry if it is still this instance: after a restart the name may
+	// already belong to the new instance
+	if current, ok := p.runningProcesses[process.getName()]; ok && current == process {
+		delete(p.runningProcesses, process.getName())
+	}
 	p.runProcMutex.Unlock()
 }
 
